@@ -37,7 +37,12 @@ static void user_operations(const Scenario* sc) {
 #endif
   // any subset of the sources (incl. headers only known through depfiles) is edited
   std::vector<std::string> src = split_words(sc->sources);
+#ifdef SINGLE_EDIT
+  // (cheaper tier for the larger shapes) at most one source is edited
+  { int which = verif_choice("edit_one_source", (int)src.size() + 1); if (which > 0) { edit_file(src[which - 1]); verif_note(("edit " + src[which - 1]).c_str()); } }
+#else
   for (size_t i = 0; i < src.size(); i++) if (verif_bool("edit_source")) { edit_file(src[i]); verif_note(("edit " + src[i]).c_str()); }
+#endif
   // at most one output, depfile or log is deleted
   std::vector<std::string> outs;
   for (size_t i = 0; i < g_tree->files.size(); i++) { VFile& f = g_tree->files[i]; bool is_src = false; for (size_t k = 0; k < src.size(); k++) is_src = is_src || src[k] == f.name; if (!is_src && f.exists && f.name != ".ninja_lock") outs.push_back(f.name); }
